@@ -58,12 +58,22 @@ z_number pow2(unsigned k) { return z_number(1) << z_number((int64_t)k); }
 template <class D> std::string snapshot(const D &a, const std::vector<var_t> &vars, const std::vector<cst_t> &probes) {
   std::string s;
   bool bot = a.is_bottom();
+  // a value one of whose variables has an empty range describes no state, whether or not the
+  // (incomplete) is_bottom() test has noticed yet: both observe as bottom
+  std::vector<std::string> ats;
+  if (!bot)
+    for (auto &v : vars) {
+      auto i = a.at(v);
+      if (i.is_bottom())
+        bot = true;
+      ats.push_back(to_str(i));
+    }
   s += bot ? "B" : "b";
   s += a.is_top() ? "T" : "t";
   if (bot)
     return s;
-  for (auto &v : vars) {
-    s += to_str(a.at(v));
+  for (auto &x : ats) {
+    s += x;
     s += ";";
   }
   for (auto &c : probes)
@@ -1236,6 +1246,8 @@ template <class D> struct Hist {
     unsigned increases = 0, last_increase = 0, independent = 0;
     bool with_join = t.flag();
     bool with_queries = t.flag();
+    if (getenv("VERIF_CHAIN_NOQ")) // triage knob: the same chain without queries / normalize() between the widenings
+      with_queries = false;
     // like the fixpoint iterator's widening delay: the first `delay` steps use join, so that the
     // left operand of the first widening already carries explicit relations between variables
     unsigned delay = t.pick(4);
@@ -1368,9 +1380,13 @@ template <class D> struct Hist {
                              << a << " but the copy observes " << b);
       }
       if (with_queries && (it % 3) == 1) {
+        // on a COPY of the iterate: closing the left operand of the next widening is the client's
+        // doing, no caller in crab does it, and no DBM-like widening can stabilise under it (the
+        // property speaks of x, x || y1, (x || y1) || y2, ... -- see DESIGN.md 4.2 item 11)
+        D q(nx);
         for (auto &v : vars)
-          (void)nx[v];
-        nx.normalize();
+          (void)q[v];
+        q.normalize();
       }
       bool inc = !(nx <= x);
       if (it < delay)
